@@ -4,7 +4,7 @@ import verde as vd
 import xarray as xr
 from hypothesis import strategies as st
 
-from vlib import blocks, gen
+from vlib import blocks, build, gen
 from vlib.runner import Sub, Violation
 
 PROPERTY = "C15"
@@ -77,7 +77,7 @@ def knn_cases(draw):
     vals = draw(st.lists(st.one_of(st.integers(-100, 100).map(float), gen.finite(-1e3, 1e3)), min_size=n, max_size=n))
     return dict(mode=mode, data=pts, values=vals, query=qs, k=draw(st.integers(1, n)), reduction=draw(st.sampled_from(list(REDS))),
                 dshape=draw(st.sampled_from(blocks.shape_options(n))), qshape=draw(st.sampled_from(blocks.shape_options(len(qs)))),
-                extra=draw(st.booleans()))
+                extra=draw(st.booleans()), orders=draw(build.orders_strategy()))
 
 
 def check_knn(case, ctx):
@@ -86,10 +86,11 @@ def check_knn(case, ctx):
     vals = np.array(case["values"])
     k = case["k"]
     dshape, qshape = case["dshape"], case["qshape"]
-    coords = (d[:, 0].reshape(dshape), d[:, 1].reshape(dshape)) + ((np.zeros(dshape),) if case["extra"] else ())
+    lay = build.Lay(case.get("orders"))
+    coords = (lay(d[:, 0], dshape), lay(d[:, 1], dshape)) + ((np.zeros(dshape),) if case["extra"] else ())
     kn = vd.KNeighbors(k=k, reduction=REDS[case["reduction"]]) if (k, case["reduction"]) != (1, "mean") else vd.KNeighbors()
-    kn.fit(coords, vals.reshape(dshape))
-    qcoords = (q[:, 0].reshape(qshape), q[:, 1].reshape(qshape))
+    kn.fit(coords, lay(vals, dshape))
+    qcoords = (lay(q[:, 0], qshape), lay(q[:, 1], qshape))
     pred = np.asarray(kn.predict(qcoords))
     ctx.check(pred.shape == tuple(qshape), "prediction shape %s, query shape %s", pred.shape, tuple(qshape))
     D = dist_matrix(q, d)
@@ -121,13 +122,14 @@ def median_cases(draw):
     n = len(pts)
     return dict(mode=mode, data=pts, k=draw(st.integers(1, n - 1)), shape=draw(st.sampled_from(blocks.shape_options(n))),
                 proj=draw(st.one_of(st.none(), st.tuples(st.sampled_from([1.0, 2.0, 0.5, 10.0, -1.0]), st.sampled_from([1.0, 3.0, 0.25, -2.0])))),
-                extra=draw(st.booleans()))
+                extra=draw(st.booleans()), orders=draw(build.orders_strategy()))
 
 
 def check_median(case, ctx):
     d = np.array(case["data"])
     shape = case["shape"]
-    coords = (d[:, 0].reshape(shape), d[:, 1].reshape(shape)) + ((np.ones(shape),) if case["extra"] else ())
+    lay = build.Lay(case.get("orders"))
+    coords = (lay(d[:, 0], shape), lay(d[:, 1], shape)) + ((np.ones(shape),) if case["extra"] else ())
     proj = proj_from(case["proj"])
     kw = {} if proj is None else dict(projection=proj)
     got = np.asarray(vd.median_distance(coords, k_nearest=case["k"], **kw))
@@ -149,7 +151,7 @@ def mask_cases(draw):
     mode, pts = draw(clouds(min_n=1))
     form = draw(st.sampled_from(["array", "grid"]))
     proj = draw(st.one_of(st.none(), st.tuples(st.sampled_from([1.0, 2.0, 0.5, 10.0]), st.sampled_from([1.0, 3.0, 0.25]))))
-    case = dict(mode=mode, data=pts, form=form, proj=proj, dshape=draw(st.sampled_from(blocks.shape_options(len(pts)))))
+    case = dict(mode=mode, data=pts, form=form, proj=proj, dshape=draw(st.sampled_from(blocks.shape_options(len(pts)))), orders=draw(build.orders_strategy()))
     if form == "array":
         qs = draw(queries(mode, pts))
         case["query"] = qs
@@ -172,14 +174,15 @@ def mask_cases(draw):
 def check_mask(case, ctx):
     d = np.array(case["data"])
     dshape = case["dshape"]
-    dcoords = (d[:, 0].reshape(dshape), d[:, 1].reshape(dshape))
+    lay = build.Lay(case.get("orders"))
+    dcoords = (lay(d[:, 0], dshape), lay(d[:, 1], dshape))
     proj = proj_from(case["proj"])
     kw = {} if proj is None else dict(projection=proj)
     maxdist = case["maxdist"]
     if case["form"] == "array":
         q = np.array(case["query"])
         qshape = case["qshape"]
-        qcoords = (q[:, 0].reshape(qshape), q[:, 1].reshape(qshape))
+        qcoords = (lay(q[:, 0], qshape), lay(q[:, 1], qshape))
         mask = np.asarray(vd.distance_mask(dcoords, maxdist, coordinates=qcoords, **kw))
         ctx.check(mask.shape == tuple(qshape) and mask.dtype == bool, "mask must be boolean with the query's shape, got %s %s", mask.dtype, mask.shape)
     else:
